@@ -245,12 +245,10 @@ def worker_main(prop_id, tier, w, nworkers, seed, outfile):
 
             try:
                 prop()
-            except AssertionError:
-                if state["failing"] is None:
-                    raise
-                case, fresh = state["failing"]
-                save_violation(case, fresh)
-            except hypothesis.errors.Flaky:
+            except Exception:  # noqa
+                # AssertionError: the (shrunk) failing case; Flaky, or an internal error of the shrinker (seen with
+                # hypothesis 6.168: ValueError in intervalsets.index while shrinking a st.text draw): the violation that
+                # was found stands, only its minimisation was cut short
                 if state["failing"] is None:
                     raise
                 case, fresh = state["failing"]
